@@ -121,7 +121,7 @@ func runC03(c *Ctx) {
 		okv := len(dhs) >= 1
 		for _, d := range dhs {
 			a := ir.CallOf(d).Args[0]
-			if !loadsField(fHashes)(a) || !loadsField(prevFH())(a) {
+			if !bytesFrom(a, loadsField(fHashes)) || !bytesFrom(a, loadsField(prevFH())) {
 				okv = false
 			}
 		}
@@ -190,7 +190,7 @@ func runC03(c *Ctx) {
 			okv := len(dhs) >= 1
 			for _, d := range dhs {
 				a := ir.CallOf(d).Args[0]
-				if !loadsField(fHashes)(a) || !loadsField(prevFH())(a) {
+				if !bytesFrom(a, loadsField(fHashes)) || !bytesFrom(a, loadsField(prevFH())) {
 					okv = false
 				}
 			}
@@ -238,7 +238,7 @@ func runC03(c *Ctx) {
 		okv := len(dhs) >= 1
 		for _, d := range dhs {
 			a := ir.CallOf(d).Args[0]
-			if !loadsField(fHashes)(a) || !loadsField(prevFH())(a) {
+			if !bytesFrom(a, loadsField(fHashes)) || !bytesFrom(a, loadsField(prevFH())) {
 				okv = false
 			}
 		}
@@ -519,6 +519,86 @@ func runC03(c *Ctx) {
 		}
 		sort.Strings(bad)
 		c.verdict(len(bad) == 0 && n >= 3, "blockManager | all-peer queries run until every peer answered or timed out", "-", fmt.Sprintf("%d response callback(s); none closes the query-wide quit channel", n), join(bad)+fmt.Sprintf(" (%d callbacks found, 3 tabled)", n), sites...)
+	})
+
+	c.rule("C03.V6", "the checkpoint a batched answer must end in is the one the request was made for: in the response handler of the checkpointed query the checkpoint handed to verifyCheckpoint as the end of the range is picked by an index worked out from the request (its start height, the number of intervals asked for, the length of the checkpoint list) - nothing of the response enters it; derived from the length of the answer instead, an answer cut short at an interval boundary verifies against the earlier checkpoint, is written, and the filter tip - which follows the answer's stop hash - moves to a block whose filter header was never stored", func() {
+		fn := c.fn(fnCFHResp)
+		vc := c.P.Func("neutrino.verifyCheckpoint")
+		if vc == nil {
+			c.pass(c.nm(fn)+" | end checkpoint index comes from the request", c.P.Pos(fn.Pos()), "verifyCheckpoint is folded into the handler: the comparisons themselves are C03.G2 / C03.G3")
+			return
+		}
+		calls := find(fn, func(in ssa.Instruction) bool { cc := ir.CallOf(in); return cc != nil && cc.StaticCallee() == vc })
+		fh := c.field(pWire, "MsgCFHeaders", "FilterHashes")
+		var bad []string
+		for _, in := range calls {
+			end := ir.CallOf(in).Args[1]
+			var idx ssa.Value
+			ir.DerivesFrom(end, func(x ssa.Value) bool {
+				if ia, ok := x.(*ssa.IndexAddr); ok && idx == nil {
+					idx = ia.Index
+					return true
+				}
+				return false
+			})
+			if idx == nil {
+				bad = append(bad, "the end checkpoint at "+c.at(in)+" is not an element of the checkpoint list")
+				continue
+			}
+			fromResp := ir.InfluencedBy(idx, func(x ssa.Value) bool {
+				if loadsField(fh)(x) {
+					return true
+				}
+				ta, isTA := x.(*ssa.TypeAssert)
+				return isTA && len(fn.Params) >= 3 && ta.X == ssa.Value(fn.Params[2])
+			})
+			if fromResp {
+				bad = append(bad, "the index of the end checkpoint at "+c.at(in)+" is worked out from the response")
+			}
+		}
+		sort.Strings(bad)
+		c.verdict(len(bad) == 0 && len(calls) >= 1, c.nm(fn)+" | end checkpoint index comes from the request", c.P.Pos(fn.Pos()), fmt.Sprintf("%d verifyCheckpoint call(s); the index of the end checkpoint is independent of the response", len(calls)), join(bad)+" (or no verifyCheckpoint call)", c.ats(calls)...)
+	})
+
+	c.rule("C03.G7", "a peer is retired only by its answer to this request: in the response callbacks of getCheckpts and getCFHeadersForAllPeers the answering peer's slot is ended (close(peerQuit)) only behind the tests that the message carries the requested filter type and the requested stop hash; a late reply to the previous round's request (the tip moved in between) must not cost the peer its current answer - with the only honest answer dropped the remaining liars agree, no conflict is seen, their list is adopted and the honest peer is banned when its headers fail the false checkpoints", func() {
+		qf := c.field("neutrino", "blockManagerCfg", "queryAllPeers")
+		n := 0
+		for _, host := range []struct{ fn, msg string }{
+			{"(*neutrino.blockManager).getCheckpts", "MsgCFCheckpt"},
+			{"(*neutrino.blockManager).getCFHeadersForAllPeers", "MsgCFHeaders"},
+		} {
+			f := c.fn(host.fn)
+			for _, x := range find(f, callVia(qf)) {
+				for _, a := range ir.CallOf(x).Args {
+					mc, ok := a.(*ssa.MakeClosure)
+					if !ok {
+						continue
+					}
+					cl := mc.Fn.(*ssa.Function)
+					if len(cl.Params) != 4 {
+						continue
+					}
+					var closes []ssa.Instruction
+					for _, cc := range find(cl, isBuiltin("close")) {
+						if ir.DerivesFrom(ir.CallOf(cc).Args[0], func(v ssa.Value) bool { return v == ssa.Value(cl.Params[3]) }) {
+							closes = append(closes, cc)
+						}
+					}
+					if len(closes) == 0 {
+						continue // the slot runs into its timeout: nothing to guard
+					}
+					n++
+					for _, fld := range []string{"FilterType", "StopHash"} {
+						fv := c.field(pWire, host.msg, fld)
+						cmps := find(cl, binops(eqOps, loadsField(fv), func(v ssa.Value) bool { return !loadsField(fv)(v) }))
+						c.guarded(cl, equalIs("m."+fld+" vs the requested one", cmps, true), 1, "close(peerQuit)", closes, 1, gDominate)
+					}
+				}
+			}
+		}
+		if n < 2 {
+			c.undecided("blockManager | all-peer callbacks that retire the answering peer", "", fmt.Sprintf("found %d, 2 tabled", n))
+		}
 	})
 
 	c.rule("C03.V2", "the whole cfheaders message is hashed: the header-chain loops of verifyCheckpoint and writeCFHeadersMsg visit every entry of FilterHashes (indices 0..len-1, no early exit), each iteration folding the entry into the running header with DoubleHashH; writeCFHeadersMsg's notification loop visits every matching block header", func() {
